@@ -3,6 +3,10 @@
 /verif/seeded/ and writes /verif/seeded/SWEEP.json + SWEEP.md.
 
   tools/sweepall.py [--only C01-1,C02-3] [--tier quick]
+  SWEEP_LANE=k/n VERIF_REPO=<scratch worktree> VERIF_ROOT=<snapshot of /verif> tools/sweepall.py --skip-file F
+        one of n parallel lanes (seed index mod n == k) working on its own checkout; writes seeded/SWEEP.<k>.json
+  tools/sweepall.py --merge      builds SWEEP.json / SWEEP.md from the lane files and, for seeds no lane ran
+        (listed in the skip file because they were re-confirmed individually), from their meta.json
 
 For each seed: `git apply --check` on /repo (a patch that no longer applies is reported as
 "stale"), then tools/mutcheck.sh for the seed's own property; if that check does not report it,
@@ -15,12 +19,44 @@ a = sys.argv[1:]
 only = set(a[a.index("--only") + 1].split(",")) if "--only" in a else None
 tier = a[a.index("--tier") + 1] if "--tier" in a else "quick"
 os.chdir("/verif")
-if subprocess.run("git -C /repo status --porcelain --untracked-files=no", shell=True, capture_output=True, text=True).stdout.strip():
+REPO = os.environ.get("VERIF_REPO", "/repo")
+lane = os.environ.get("SWEEP_LANE")
+skip = set(open(a[a.index("--skip-file") + 1]).read().split()) if "--skip-file" in a else set()
+OUT = "seeded/SWEEP.json" if not lane else "seeded/SWEEP.%s.json" % lane.split("/")[0]
+if "--merge" in a:
+    head = subprocess.run(f"git -C {REPO} rev-parse --short HEAD", shell=True, capture_output=True, text=True).stdout.strip()
+    res = {}
+    for f in sorted(glob.glob("seeded/SWEEP.[0-9]*.json")):
+        res.update(json.load(open(f))["seeds"])
+    for d in sorted(glob.glob("seeded/C*-*")):
+        name = os.path.basename(d)
+        if name in res or not os.path.exists(d + "/meta.json"):
+            continue
+        meta = json.load(open(d + "/meta.json"))
+        if not meta.get("confirmed"):
+            res[name] = {"property": meta.get("property"), "status": "not confirmed (see meta.json)"}
+            continue
+        ch = {c: {"rc": v.get("rc", -1), "detected": bool(v.get("detected")), "report": v.get("report", [])[:2]} for c, v in meta.get("detected_by", {}).items()}
+        res[name] = {"property": meta.get("property"), "checks": ch, "status": ("detected" if any(v["detected"] for v in ch.values()) else "MISSED"), "from": "meta.json (confirmed individually at " + str(meta.get("verified", {}).get("repo_head")) + ")"}
+    json.dump({"repo_head": head, "tier": tier, "seeds": res}, open("seeded/SWEEP.json", "w"), indent=1)
+    with open("seeded/SWEEP.md", "w") as f:
+        f.write(f"# Seed sweep against /repo {head} ({tier} tier)\n\n| seed | status | own check | other checks |\n|---|---|---|---|\n")
+        for name in sorted(res):
+            e = res[name]
+            ch = e.get("checks", {})
+            own = name.split("-")[0]
+            o = ch.get(own)
+            f.write(f"| {name} | {e['status']} | {('yes' if o['detected'] else 'no (rc=%d)' % o['rc']) if o else '-'} | "
+                    + ", ".join(f"{c}:{'yes' if v['detected'] else 'no'}" for c, v in ch.items() if c != own) + " |\n")
+    n = sum(1 for e in res.values() if "checks" in e)
+    print("merged", len(res), "seeds;", sum(1 for e in res.values() if e["status"] == "detected"), "detected of", n)
+    sys.exit(0)
+if subprocess.run(f"git -C {REPO} status --porcelain --untracked-files=no", shell=True, capture_output=True, text=True).stdout.strip():
     sys.exit("repo dirty")
-head = subprocess.run("git -C /repo rev-parse --short HEAD", shell=True, capture_output=True, text=True).stdout.strip()
+head = subprocess.run(f"git -C {REPO} rev-parse --short HEAD", shell=True, capture_output=True, text=True).stdout.strip()
 res = {}
-if only and os.path.exists("seeded/SWEEP.json"):
-    res = json.load(open("seeded/SWEEP.json")).get("seeds", {})
+if only and os.path.exists(OUT):
+    res = json.load(open(OUT)).get("seeds", {})
 
 
 def run(patch, chk):
@@ -30,9 +66,13 @@ def run(patch, chk):
     return {"rc": r.returncode, "detected": r.returncode == 1, "wall_s": round(time.time() - t0, 1), "report": [l[:300] for l in lines[:2]]}
 
 
-for d in sorted(glob.glob("seeded/C*-*")):
+for idx, d in enumerate(sorted(glob.glob("seeded/C*-*"))):
     name = os.path.basename(d)
     if only and name not in only:
+        continue
+    if name in skip:
+        continue
+    if lane and idx % int(lane.split("/")[1]) != int(lane.split("/")[0]):
         continue
     mp = os.path.join(d, "meta.json")
     if not os.path.exists(mp):
@@ -45,8 +85,8 @@ for d in sorted(glob.glob("seeded/C*-*")):
         res[name] = entry
         continue
     patch = os.path.abspath(os.path.join(d, "patch.diff"))
-    if subprocess.run(["git", "-C", "/repo", "apply", "--check", patch], capture_output=True).returncode != 0 and \
-            subprocess.run(f"patch -p1 --dry-run -s < {patch}", shell=True, cwd="/repo", capture_output=True).returncode != 0:
+    if subprocess.run(["git", "-C", REPO, "apply", "--check", patch], capture_output=True).returncode != 0 and \
+            subprocess.run(f"patch -p1 --dry-run -s < {patch}", shell=True, cwd=REPO, capture_output=True).returncode != 0:
         entry["status"] = "stale: patch does not apply to " + head
         res[name] = entry
         print(name, entry["status"], flush=True)
@@ -61,7 +101,7 @@ for d in sorted(glob.glob("seeded/C*-*")):
     entry["status"] = "detected" if any(v["detected"] for v in checks.values()) else "MISSED"
     res[name] = entry
     print(name, entry["status"], {c: v["detected"] for c, v in checks.items()}, flush=True)
-    json.dump({"repo_head": head, "tier": tier, "seeds": res}, open("seeded/SWEEP.json", "w"), indent=1)
+    json.dump({"repo_head": head, "tier": tier, "seeds": res}, open(OUT, "w"), indent=1)
 
 json.dump({"repo_head": head, "tier": tier, "seeds": res}, open("seeded/SWEEP.json", "w"), indent=1)
 with open("seeded/SWEEP.md", "w") as f:
